@@ -655,6 +655,20 @@ class Association(threading.Thread):
 
             # Timed out waiting for A-ASSOCIATE request
             if primitive is None:
+                # The ARTIM timer normally returns the provider to Sta1, but
+                #   a request that is completely received once we've stopped
+                #   waiting for it leaves it in Sta3 with nobody to respond,
+                #   so abort rather than wait forever
+                while self.dul.is_alive() and not self.dul.stop_dul():
+                    if (
+                        self.dul.state_machine.current_state == "Sta3"
+                        and not self._sent_abort
+                    ):
+                        self._sent_abort = True
+                        self.acse.send_abort(0x02)
+
+                    time.sleep(0.01)
+
                 self.kill()
 
                 # Ensure the connection is shutdown properly
